@@ -65,13 +65,25 @@ class C09(P.Property):
         nkw = rng.randint(1, 4 if small else 8)
         db = {}
         c = 0
+        big = (not small) and rng.random() < 0.05  # occasionally long lists: indexes and results beyond one 64 KiB frame / many blocks
         for i in range(nkw):
             ln = rng.choice(LENS[:9] if small else LENS)
-            kw = "".join(rng.choice(["a", "b", "c", "k", "é", "z", "0", "-", "W", " "]) for _ in range(rng.randint(1, 6))) + str(i)
+            if big and i < 2:
+                ln = rng.choice([100, 255, 256, 257, 300])
+            kw = "".join(rng.choice(["a", "b", "c", "k", "é", "z", "0", "-", "W", " ", "\x00", "ÿ", "\u20ac"]) for _ in range(rng.randint(1, 6))) + str(i)
+            if kw[0] == "\x00":
+                kw = "n" + kw  # a keyword may contain NUL bytes but not start with one
+            if rng.random() < 0.04:
+                kw = (kw + "L" * 40)[:32 - len(str(i))] + str(i)  # at the 32-byte keyword limit of SSE-1 / SSE-2 (ASCII part)
+                kw = kw.encode("utf-8")[:32].decode("utf-8", "ignore")
             if rng.random() < 0.15:
                 kw = rng.choice([" ", "\t"]) + kw  # leading / trailing whitespace is part of a keyword
             if rng.random() < 0.15:
                 kw = kw + rng.choice([" ", "\n"])
+            while len(kw.encode("utf-8")) > 32:  # the keyword-length limit of SSE-1 / SSE-2 bounds the valid domain
+                kw = kw[:len(kw) // 2] + kw[len(kw) // 2 + 1:]
+            while kw in db or not kw:
+                kw = (kw + "q")[-31:]
             ids = []
             for _ in range(ln):
                 c += 1
@@ -108,6 +120,11 @@ class C09(P.Property):
             else:
                 j = rng.randrange(len(base))
                 w, cls = base[:j] + ("x" if base[j] != "x" else "y") + base[j + 1:], "near"
+            while len(w.encode("utf-8")) > 32:  # searched keywords stay inside the schemes' keyword-length limit as well
+                w = w[1:]
+                cls = "near"
+            if not w or w[0] == "\x00":
+                w = "q" + w[1:]
             st = {"w": w, "recreate": rng.random() < 0.4, "gap": rng.choice([0, 0, 0.5, 1.5]), "restart": rng.random() < 0.12,
                   "idle": rng.choice([0] * 9 + [25, 70])}  # idle time before the search on whatever connection is open
             steps.append(st)
